@@ -39,7 +39,9 @@ def menu():
         _menu.update(
             # a field whose type is a plain struct / a reference to one: its dictionary form is made by the struct itself
             ps=dict(ftype=C19Plain, defaults=[("none", {}, None)], values=[("diff", dict(a=3, m=[[1.0, 2.0], [3.0, 4.0]])), ("zero", dict(a=0, m=[[0.0, 0.0], [0.0, 0.0]]))]),
-            pr=dict(ftype=xo.Ref[C19Plain], defaults=[("none", {}, None)], values=[("diff", dict(a=4, m=[[5.0, 6.0], [7.0, 8.0]])), ("zero", dict(a=0, m=[[0.0, 0.0], [0.0, 0.0]]))]),
+            # (also declared with a NON-NULL default, and nulled by attribute assignment after the construction)
+            pr=dict(ftype=xo.Ref[C19Plain], defaults=[("none", {}, None), ("factory-object", dict(default_factory=lambda: C19Plain(a=7, m=[[1.0, 1.0], [1.0, 1.0]])), dict(a=7, m=[[1.0, 1.0], [1.0, 1.0]]))],
+                    values=[("diff", dict(a=4, m=[[5.0, 6.0], [7.0, 8.0]])), ("zero", dict(a=0, m=[[0.0, 0.0], [0.0, 0.0]])), ("nulled-afterwards", ("assign", None))]),
             # a reference to an object of a hybrid class with a renamed field, BOUND to a dressed object of the same buffer
             rr=dict(ftype=xo.Ref(C19InnerR), defaults=[("none", {}, None)], values=[("diff", ("bind", C19InnerR, dict(alpha=3, v=[4.0, 5.0, 6.0]))), ("zero", ("bind", C19InnerR, dict(alpha=0, v=[0.0, 0.0, 0.0])))]),
             # static shape, items of dynamic size
@@ -147,6 +149,8 @@ def read_hybrid(h, fields):
         elif kind == "rr":
             v = dict(a=int(pv.alpha if hasattr(pv, "alpha") else pv.a), v=[float(x) for x in (np.asarray(pv.v) if hasattr(pv, "_xobject") else [pv.v[i] for i in range(3)])])
             v2 = dict(a=int(xv.a), v=[float(xv.v[i]) for i in range(3)])
+        elif kind == "pr" and (pv is None or xv is None):
+            v, v2 = (None if pv is None else "object"), (None if xv is None else "object")
         elif kind in ("ps", "pr"):
             v = dict(a=int(pv.a), m=[[float(pv.m[i, j]) for j in range(2)] for i in range(2)])
             v2 = dict(a=int(xv.a), m=[[float(xv.m[i, j]) for j in range(2)] for i in range(2)])
@@ -166,11 +170,13 @@ def read_hybrid(h, fields):
 
 def make_hybrid(H, kw):
     """H(**kw); values ("bind", cls, data) are objects made in the new object's buffer and bound afterwards"""
-    plain = {k: (v() if callable(v) else v) for k, v in kw.items() if not (isinstance(v, tuple) and v and v[0] == "bind")}
+    plain = {k: (v() if callable(v) else v) for k, v in kw.items() if not (isinstance(v, tuple) and v and v[0] in ("bind", "assign"))}
     h = H(**plain)
     for k, v in kw.items():
         if isinstance(v, tuple) and v and v[0] == "bind":
             setattr(h, k, v[1](_buffer=h._buffer, **v[2]))
+        elif isinstance(v, tuple) and v and v[0] == "assign":
+            setattr(h, k, v[1])  # the field is left to its default by the constructor and assigned afterwards
     return h
 
 
@@ -246,7 +252,7 @@ def run_hybrid(first, tier, res):
                 # where one fits); the dictionary describes the state in which it was taken
                 for (pn, xn, k), (vlab, v), cand in zip(fields, choice, vals):
                     w = next((c[1] for c in cand if not veq(c[1], v)), None)
-                    if w is None or (isinstance(w, tuple) and w and w[0] == "bind"):
+                    if w is None or (isinstance(w, tuple) and w and w[0] in ("bind", "assign")):
                         continue
                     try:
                         setattr(h, pn, w() if callable(w) else w)
